@@ -38,6 +38,7 @@ ASSUMPTIONS = [
 
 PRIMES = [2, 3, 5, 7, 11, 13, 17, 19, 23, 29, 31, 37]
 NTAB = 3
+L2INIT = 1e5      # default upper end of the routine's multiplier bracket
 
 
 def frac(v):
@@ -132,7 +133,7 @@ LAYOUTS = {
 
 def horizon(move, xmin, xmax, n):
     rng = float(np.max(oc.full(xmax, n) - oc.full(xmin, n)))
-    return int(2 * np.ceil(rng / move) + 8)
+    return int(np.ceil(rng / move) + 10)
 
 
 _CLS = {}
@@ -236,7 +237,7 @@ def judge_run(case, tol, stop):
     multi = 'multi' if len(sizes) > 1 else 'single'
     V, tags, obs = [], set(), []
     nchecks = 0
-    narrowed = dict(case, tols=[tol], stops=[stop])
+    narrowed = dict(case, runs=[[tol, stop]])
 
     def bad(check, sig, **detail):
         s = {'check': check, 'layout': multi}
@@ -338,6 +339,9 @@ def judge_run(case, tol, stop):
             opt = oc.analytic_optimum_inv(c, xmin, xmax, vol, tol)
             if opt is None:
                 tags.add('infeasible_volume')
+            elif opt['mu'][0] >= L2INIT - tol:
+                tags.add('optimum_multiplier_outside_bracket')
+                obs.append('optimum_multiplier_outside_bracket')
             else:
                 nchecks += 2
                 xe = flat[-1]
@@ -364,19 +368,18 @@ def execute(case):
     states = trans = checks = 0
     keys, tags, obs, V = [], set(), [], []
     base = '|'.join(str(case[k]) for k in ('layout', 'rev', 'kind', 'c', 'start', 'bounds', 'move', 'maxvol', 'table'))
-    for tol in case['tols']:
-        for stop in case['stops']:
-            r = judge_run(case, tol, stop)
-            states += max(r['iterations'], 1)
-            trans += r['updates']
-            checks += r['checks']
-            tags |= r['tags']
-            obs += r['observed_only']
-            if r['nontrivial']:
-                keys.append(f"{base}|{tol}|{stop}")
-            for v in r['violations']:
-                if not any(x['signature'] == v['signature'] for x in V):
-                    V.append(v)
+    for tol, stop in case['runs']:
+        r = judge_run(case, tol, stop)
+        states += max(r['iterations'], 1)
+        trans += r['updates']
+        checks += r['checks']
+        tags |= r['tags']
+        obs += r['observed_only']
+        if r['nontrivial']:
+            keys.append(f"{base}|{tol}|{stop}")
+        for v in r['violations']:
+            if not any(x['signature'] == v['signature'] for x in V):
+                V.append(v)
     return {'states': states, 'transitions': trans, 'checks': checks, 'nontrivial': bool(keys),
             'key': keys or [base + '|trivial'], 'outcome': sorted(tags), 'observed_only': sorted(set(obs)),
             'violations': V}
